@@ -1,7 +1,9 @@
 #!/usr/bin/env python3
 """Build /verif/seeded/<id>/ from the confirmed results in /verif/seeded/_incoming/<id>/confirm.json."""
 import json, os, re, shutil, glob
-INC='/verif/seeded/_incoming'
+import sys
+INC=os.environ.get('SEED_INC','/verif/seeded/_incoming')
+MERGE=os.environ.get('SEED_MERGE','')=='1'
 def sections(notes):
     # split notes.md into (heading, body) pairs
     out=[]; cur=None; buf=[]
@@ -14,6 +16,7 @@ def sections(notes):
     return out
 def describe(notes, orig_name, idx, npatches):
     secs=sections(notes)
+    orig_name=orig_name.lower()
     title=''; needs=''; start=None
     for i,(h,b) in enumerate(secs):
         hl=h.lower()
@@ -28,17 +31,24 @@ def describe(notes, orig_name, idx, npatches):
             if 'needed' in hl:
                 needs=b; break
         if not needs:
-            needs=secs[start][1]
+            body=secs[start][1]
+            paras=[q for q in re.split(r'\n\s*\n', body) if re.search(r'needed|to manifest|trigger', q, re.I)]
+            needs='\n\n'.join(paras) if paras else body
     return title, needs[:2500]
 for d in sorted(glob.glob(INC+'/C*')):
     pid=os.path.basename(d)
     cf=json.load(open(d+'/confirm.json'))
     notes=open(d+'/notes.md').read()
     out=f'/verif/seeded/{pid}'
-    shutil.rmtree(out, ignore_errors=True); os.makedirs(out)
-    shutil.copy(d+'/notes.md', out+'/notes.md')
+    if not MERGE:
+        shutil.rmtree(out, ignore_errors=True)
+    os.makedirs(out, exist_ok=True)
+    shutil.copy(d+'/notes.md', out+('/notes_round2.md' if MERGE else '/notes.md'))
     if os.path.exists(d+'/run_demo.sh'): shutil.copy(d+'/run_demo.sh', out+'/run_demo.sh')
     changes=[]
+    if MERGE and os.path.exists(out+'/meta.json'):
+        changes=json.load(open(out+'/meta.json'))['changes']
+        changes=[c for c in changes if not c['patch'].startswith('r2')]
     applied=[p for p in cf['patches'] if p['applies']]
     origs=sorted(set(re.sub(r'\.rebased','',p['patch']) for p in cf['patches']))
     for p in applied:
@@ -51,7 +61,7 @@ for d in sorted(glob.glob(INC+'/C*')):
         if p['patch']!=orig:
             shutil.copy(f'{d}/{orig}', f'{out}/{orig}.as-written-against-pinned-commit.txt')
         for k in failing: shutil.copy(f'{d}/{k}', f'{out}/{k}')
-        title,needs=describe(notes, orig, len(changes), len(origs))
+        title,needs=describe(notes, orig[2:] if orig.startswith('r2') else orig, len(changes), len(origs))
         suite_note='module test suite passes with the patch (demonstration file removed)'
         if pid=='C09' and orig=='patch2.diff':
             suite_note+='; TestThrottling of pipe/fork (wall-clock assertion 99ms < gap < 110ms) failed in 2 of 5 runs under load and is unrelated to the change (it fails intermittently on the unpatched tree too)'
@@ -70,9 +80,10 @@ for d in sorted(glob.glob(INC+'/C*')):
              'how': 'tools/confirm_seeded.py: scratch git worktree of /repo HEAD outside /repo and /verif; demonstration copied into the package directory (internal/* staged under its import path in a scratch module); go test -run <demo tests>; then git apply patch; same run; then the module suite without the demonstration; worktree removed',
              'demonstration_on_clean_tree': 'pass',
              'demonstration_with_patch': 'fail',
-             'suite_with_patch': suite_note,
+             'suite_with_patch': suite_note + ('; ' + p['suite_note'] if p.get('suite_note') else ''),
              'demo_output_tail': {k:(p.get('demo_output',{}).get(k,'')[-400:]) for k in failing},
           },
+          'round': 2 if orig.startswith('r2') else 1,
           'caught_by': {'check': f'/verif/bin/govc check -property {pid}', 'failed_obligations': p['check_failed_obligations'], 'unverifiable': p['check_unverifiable']},
         })
     json.dump({'property': pid, 'changes': changes, 'apply': f'git -C /repo apply /verif/seeded/{pid}/<patch>', 'undo': 'git -C /repo checkout -- .'}, open(out+'/meta.json','w'), indent=1)
